@@ -1061,7 +1061,8 @@ StepDrainEnd(h, e) ==
       \* the drain polled a live, resumed connection to the end and an owed retransmission never came
       owing == Owing(h)
       h5 == IF ~e.done /\ h.up /\ ~h.dead /\ h.ack.have /\ h.ack.sp = 1 /\ owing # {}
-            THEN ViolEach(h4, h, {OwedProp(h.reqs[j]) : j \in owing} \cup {"C05"},
+            \* (C12: a connection that does not bring back what is in flight leaves the session unusable)
+            THEN ViolEach(h4, h, {OwedProp(h.reqs[j]) : j \in owing} \cup {"C05", "C12"},
                           "an unacknowledged request was never retransmitted on the resumed connection")
             ELSE h4
   IN h5
